@@ -783,10 +783,16 @@ Qed.
 (* the port test used in the correspondence run meets the hypothesis on addPort *)
 Lemma all_chars_app f a b : all_chars f (a ++ b) = all_chars f a && all_chars f b.
 Proof. induction a as [|ch a IH]; [reflexivity|]. cbn [append all_chars]. now rewrite IH, andb_assoc. Qed.
+Lemma last_char_app a b : b <> EmptyString -> last_char (a ++ b) = last_char b.
+Proof.
+  intros Hb. induction a as [|ch a IH]; [reflexivity|]. cbn [append last_char]. rewrite IH.
+  destruct b as [|c0 b']; [congruence|]. cbn [last_char]. now destruct (last_char b').
+Qed.
 Lemma x_needs_port_add a : x_needs_port a = true -> x_needs_port (a ++ ":80") = false /\ x_needs_port (a ++ ":443") = false.
 Proof.
-  intros _. unfold x_needs_port, contains_char. rewrite !all_chars_app.
-  split; apply negb_false_iff; apply negb_true_iff; apply andb_false_iff; right; reflexivity.
+  intros _. unfold x_needs_port, contains_char, bracketed. rewrite !all_chars_app, !last_char_app by discriminate.
+  cbn [last_char]. split; apply orb_false_iff; (split; [|apply andb_false_iff; right; reflexivity]);
+    apply negb_false_iff; apply negb_true_iff; apply andb_false_iff; right; reflexivity.
 Qed.
 
 (* ---- how often the theorem applies to the inputs of the correspondence run (statistics, printed into the evidence) ---- *)
